@@ -600,8 +600,10 @@ def main(argv=None):
         f"wall={wall}s"
     )
     if errors:
-        for err in errors:
-            print(err, file=sys.stderr)
+        for err in errors[:3]:
+            print(err[-1800:], file=sys.stderr)
+        if len(errors) > 3:
+            print(f"... and {len(errors) - 3} more shard errors", file=sys.stderr)
         print(f"HARNESS-ERROR property={prop}", file=sys.stderr)
         # a harness error is never reported as a violation
         for line in violation_lines:
